@@ -243,6 +243,17 @@ CLAIMED.update({
     ),
 })
 
+CLAIMED.update({
+    'C24': (
+        'proxy symbolic execution (bvx/z3 integers) of OperationGroup.fill/autofill, calculate_fee/default_fee and OperationResult against a simulated node; the node acceptance rule is the assertion',
+        'Bounded symbolic model checking: account counter, node constants, caller-given limits, reserves, per-content simulated milligas / storage diffs and parameter padding are mathematical-integer '
+        'solver variables; for each batch shape and source key kind the total chosen fee must satisfy 1000*fee >= 100000 + 1000*signed_size + 100*sum(gas_limit); size-model lemmas run the real '
+        'forge_operation on symbolic numeric fields; a float lemma covers int(100*g/1000).',
+        'Batch shapes are enumerated (structure), all quantities inside a shape are symbolic; shell is the simulated node of harness/opnode.py.',
+        'DESIGN.md C24',
+    ),
+})
+
 NOT_APPLICABLE = {
     'C18': 'Parser is a PLY regex lexer + LALR tables + json; every input is concrete before the code under test runs, '
            'so a solver has nothing to decide (CrossHair regex model also unsound here). See DESIGN.md section 6.',
